@@ -468,6 +468,7 @@ func (c *cluster) newCmd(rng *rand.Rand, kind string) cmdSpec {
 }
 
 func runOne(spec runSpec, dir string) ([]*event, map[string]int, error) {
+	_ = os.RemoveAll(dir)
 	c, err := newCluster(dir)
 	if err != nil {
 		return nil, nil, err
@@ -481,8 +482,12 @@ func runOne(spec runSpec, dir string) ([]*event, map[string]int, error) {
 	c.pump(200)
 	maxOps := 9
 	restarts := 0
+	dbg := os.Getenv("VERIF_CLUSTER_DEBUG") != ""
 	for step := 0; step < spec.Steps; step++ {
 		r := rng.Intn(100)
+		if dbg {
+			fmt.Fprintf(os.Stderr, "step %d r=%d q=%d\n", step, r, c.qlen())
+		}
 		switch {
 		case r < 40:
 			if q := c.qlen(); q > 0 {
